@@ -867,8 +867,8 @@ func TestVerif_C19_Zebra(t *testing.T) {
 		}
 		es = append(es, fe.recv)
 		repEntries = append(repEntries, es...)
-		if fe.f.v == 3 || fe.f.v == 6 {
-			// the 16.8 M strings of length <=3: one Quagga-style and one FRR-style flavour, cap==len only
+		if fe.f.v == 6 {
+			// the 16.8 M strings of length <=3: the default flavour (v6/frr8.1), cap==len only
 			for _, e := range es {
 				c := *e
 				c.TightOnly = true
@@ -917,14 +917,26 @@ func TestVerif_C19_Zebra(t *testing.T) {
 	}
 	if vr.Thorough() {
 		plan.AllocFilter = func(s *c19lib.Seed, e *c19lib.Entry) bool { return e == s.Entries[0] }
-		// Thorough: full alphabet <=3 at two flavours (v3, v6/frr8.1) with cap==len only, full <=2 and boundary <=4 everywhere.
+		// Thorough: full alphabet <=3 at the default flavour (v6/frr8.1) with cap==len only, full <=2 and boundary <=3
+	// everywhere, boundary <=4 at the representative flavours. All 256 byte values, garbage tails and fault
+	// pairs only for the seeds of the representative flavours; no pairs for seeds that carry a nexthop list
+	// (every pair that includes a count fault costs 13 MiB and up to 65535 iterations: the known
+	// amplification would dominate the run with terabytes of allocation).
 		plan.Groups = []c19lib.StrGroup{
-			{Label: "v3/default+v6/frr8.1 full<=3 cap==len", Entries: tightRep, Alpha: c19lib.FullAlphabet(), MaxLen: 3},
+			{Label: "v6/frr8.1 full<=3 cap==len", Entries: tightRep, Alpha: c19lib.FullAlphabet(), MaxLen: 3},
 			{Label: "all full<=1", Entries: entries, Alpha: c19lib.FullAlphabet(), MaxLen: 1},
 			{Label: "all-but-nexthop-list full<=2", Entries: wide, Alpha: c19lib.FullAlphabet(), MaxLen: 2},
-			{Label: "all-but-nexthop-list boundary<=4", Entries: wide, Alpha: c19lib.Boundary, MaxLen: 4},
+			{Label: "all-but-nexthop-list boundary<=3", Entries: wide, Alpha: c19lib.Boundary, MaxLen: 3},
+			{Label: "representative-flavours boundary<=4", Entries: repEntries, Alpha: c19lib.Boundary, MaxLen: 4},
 		}
 		plan.Opt = c19lib.MutOpt{AllByteValues: true, Pairs: true, PairStride: 4}
+		for i := range plan.Seeds {
+			sd := &plan.Seeds[i]
+			sd.Light = sd.NoPairs // non-representative flavours
+			if strings.Contains(sd.Name, "Route(") || strings.Contains(sd.Name, "route") || strings.Contains(sd.Name, "nexthop") || strings.Contains(sd.Name, "lookup") || strings.Contains(sd.Name, "IPRouteBody") {
+				sd.NoPairs = true
+			}
+		}
 		plan.TailFull = 1
 		plan.TailBoundary = 2
 	}
